@@ -137,6 +137,9 @@ class Generator:
         if n == 1:
             return 0
         name = "%s.pick%d" % (self.prefix, self.npicks)
+        if getattr(self, "shared", False):
+            # generators made from one concrete seed return the same values for the same sequence of requests
+            name = "%s.pick%d_%s_%d" % (self.prefix, self.npicks, what, n)
         self.npicks += 1
         if self.concrete:
             v = int(self.source.get(name, 0))
@@ -297,6 +300,11 @@ def default_rng(seed=None):
         return Generator("seeded", seed.token, prefix=_gen_prefix("seeded"))
     if isinstance(seed, Generator):
         return seed
+    if isinstance(seed, int) and not isinstance(seed, bool):
+        _gen_prefix("seeded")
+        g = Generator("seeded", ("seed", seed), prefix="seed=%d" % seed)
+        g.shared = True
+        return g
     return Generator("seeded", ("seed", seed), prefix=_gen_prefix("seeded"))
 
 
